@@ -590,12 +590,24 @@ Fixpoint smatch (we re : env) (promo : bool) (w r : schema) {struct w} : bool :=
       end
   end.
 
-(** writer not a union, reader a union: the first branch of the same type, otherwise the first
+(** the very same named type: same kind and same full name *)
+Definition same_named (we re : env) (w b : schema) : bool :=
+  match deref we w, deref re b with
+  | SEnum wn _ _ _, SEnum rn _ _ _ | SFixed wn _ _, SFixed rn _ _ | SRecord wn _ _, SRecord rn _ _ => bytes_eqb wn rn
+  | _, _ => false
+  end.
+
+(** writer not a union, reader a union: the first branch of the same type (a named type of the same
+    full name first, then one that matches by unqualified name or alias), otherwise the first
     reachable by promotion *)
 Definition pick_branch (we re : env) (w : schema) (rbs : list schema) : option schema :=
-  match find (smatch we re false w) rbs with
+  match find (same_named we re w) rbs with
   | Some b => Some b
-  | None => find (smatch we re true w) rbs
+  | None =>
+      match find (smatch we re false w) rbs with
+      | Some b => Some b
+      | None => find (smatch we re true w) rbs
+      end
   end.
 
 (** the reader schema a non-union writer schema is resolved against *)
@@ -685,6 +697,37 @@ Fixpoint spec_defaults (re : env) (tbl : list (str * field)) (record : list (pyv
       end
   end.
 
+(** the loops of [resolve] over array items, map entries and record fields *)
+Section SpecLoops.
+  Variable rec : schema -> schema -> aval -> rres pyval.
+
+  Fixpoint res_items (wi ri : schema) (l : list aval) : rres (list pyval) :=
+    match l with
+    | [] => ROk []
+    | x :: l => let+ v := rec wi ri x in let+ t := res_items wi ri l in ROk (v :: t)
+    end.
+
+  Fixpoint res_entries (wv rv : schema) (l : list (bytes * aval)) : rres (list (str * pyval)) :=
+    match l with
+    | [] => ROk []
+    | (k, x) :: l => let+ v := rec wv rv x in let+ t := res_entries wv rv l in ROk ((k, v) :: t)
+    end.
+
+  (* writer fields in turn: resolved against the reader field of that name (or alias), or dropped *)
+  Fixpoint res_fields (rfs wfs : list field) (l : list aval) (record : list (pyval * pyval)) {struct l}
+    : rres (list (pyval * pyval)) :=
+    match wfs, l with
+    | [], [] => ROk record
+    | wf :: wfs, x :: l =>
+        match reader_field rfs (fname wf) with
+        | Some rf => let+ v := rec (ftype wf) (ftype rf) x in
+                     res_fields rfs wfs l (dict_set record (fname rf) v)
+        | None => res_fields rfs wfs l record
+        end
+    | _, _ => RErrOther
+    end.
+End SpecLoops.
+
 Fixpoint resolve (we re : env) (w r : schema) (a : aval) {struct a} : rres pyval :=
   let dw := deref we w in
   let dr := reader_side we re dw r in        (* None: no branch of a reader union matches *)
@@ -752,19 +795,7 @@ Fixpoint resolve (we re : env) (w r : schema) (a : aval) {struct a} : rres pyval
       match dr with
       | Some (SRecord rn ral rfs) =>
           if names_match wn rn ral then
-            (* writer fields in turn: resolved against the reader field of that name (or alias), or dropped *)
-            let+ record :=
-              (fix go wfs l record {struct l} :=
-                 match wfs, l with
-                 | [], [] => ROk record
-                 | wf :: wfs, x :: l =>
-                     match reader_field rfs (fname wf) with
-                     | Some rf => let+ v := resolve we re (ftype wf) (ftype rf) x in
-                                  go wfs l (dict_set record (fname rf) v)
-                     | None => go wfs l record
-                     end
-                 | _, _ => RErrOther
-                 end) wfs l [] in
+            let+ record := res_fields (resolve we re) rfs wfs l [] in
             (* reader-only fields from their defaults *)
             let+ record := spec_defaults re (field_table rfs) record in
             ROk (PDict record)
@@ -776,10 +807,7 @@ Fixpoint resolve (we re : env) (w r : schema) (a : aval) {struct a} : rres pyval
       match dr with
       | Some (SArray ri) =>
           if smatch we re true wi ri then
-            let+ l := (fix go l := match l with
-                                   | [] => ROk []
-                                   | x :: l => let+ v := resolve we re wi ri x in let+ t := go l in ROk (v :: t)
-                                   end) l in ROk (PList l)
+            let+ l := res_items (resolve we re) wi ri l in ROk (PList l)
           else RErrResolution
       | _ => RErrResolution
       end
@@ -787,11 +815,7 @@ Fixpoint resolve (we re : env) (w r : schema) (a : aval) {struct a} : rres pyval
       match dr with
       | Some (SMap rv) =>
           if smatch we re true wv rv then
-            let+ l := (fix go l := match l with
-                                   | [] => ROk []
-                                   | (k, x) :: l => let+ v := resolve we re wv rv x in
-                                                    let+ t := go l in ROk ((k, v) :: t)
-                                   end) l in ROk (PDict (dict_of_items l))
+            let+ l := res_entries (resolve we re) wv rv l in ROk (PDict (dict_of_items l))
           else RErrResolution
       | _ => RErrResolution
       end
